@@ -22,6 +22,7 @@ import (
 type NodeJob struct {
 	ID        string      `json:"id"`
 	Cfg       GenesisOpts `json:"cfg"`
+	Prefix    []M         `json:"prefix"`   // transactions of one extra block committed BEFORE the schedule starts (populates every custom store); all must succeed
 	Blocks    [][]M       `json:"blocks"`   // block i: list of abstract transactions
 	Schedule  []string    `json:"schedule"` // Begin | Deliver | End | Commit | Crash | Restart | RestartInfo
 	UpgradeAt int         `json:"upgradeAt"`
@@ -68,6 +69,27 @@ func nodeChain(opts GenesisOpts, disk bool) (*Chain, error) {
 		return c, nil
 	}
 	return c, fmt.Errorf("disk db not wired")
+}
+
+// nodeChainFor: nodeChain plus the job's populating block (model height 0 is then the commit of that block).
+func nodeChainFor(job *NodeJob) (*Chain, error) {
+	c, err := nodeChain(job.Cfg, false)
+	if err != nil || len(job.Prefix) == 0 {
+		return c, err
+	}
+	if err := c.BeginBlock(); err != nil {
+		return nil, err
+	}
+	for i, tx := range job.Prefix {
+		if r := deliverAbstract(c, tx); r.Result != "ok" {
+			return nil, fmt.Errorf("populating transaction %d was not accepted: %s %s", i, r.Result, r.Log)
+		}
+	}
+	if _, err := c.EndBlock(); err != nil {
+		return nil, err
+	}
+	c.Commit()
+	return c, nil
 }
 
 type nodeRunner struct {
@@ -125,7 +147,7 @@ func (c *Chain) upgradeFacts() M {
 
 // runTwin executes the block history without any crash and returns the per-height oracle table.
 func runTwin(job *NodeJob) ([]any, error) {
-	c, err := nodeChain(job.Cfg, false)
+	c, err := nodeChainFor(job)
 	if err != nil {
 		return nil, err
 	}
@@ -170,7 +192,7 @@ func runNodeJob(job *NodeJob, out *bufio.Writer) error {
 	for i := range twin {
 		twin[i].(M)["customNoUp"] = twin0[i].(M)["custom"]
 	}
-	c, err := nodeChain(job.Cfg, false)
+	c, err := nodeChainFor(job)
 	if err != nil {
 		return err
 	}
